@@ -161,6 +161,16 @@ impl RecordName {
         namespace: Option<&str>,
         tag_name: &str,
     ) -> Result<Self> {
+        // Attributes with a namespace prefix belong to an extension,
+        // even if they use the same name as one of the standard attributes.
+        if let Some(namespace) = namespace {
+            if !namespace.is_empty() {
+                return Ok(RecordName::Unknown {
+                    namespace: namespace.to_owned(),
+                    name: tag_name.to_owned(),
+                });
+            }
+        }
         Ok(match tag_name {
             "cartesianX" => RecordName::CartesianX,
             "cartesianY" => RecordName::CartesianY,
